@@ -110,6 +110,35 @@ def run(ctx):
             ctx.fail("not-accepted-by-parse", inp, "accepted in the same mode", type(e).__name__ + ": " + str(e)[:100])
         for f in ctx.failures[nf:]:
             f["built"] = b
+    # a caller-owned mutable buffer as payload, serialized repeatedly: every serialization is the frame the same
+    # bytes give, and the caller's buffer is left as it was
+    nbuf = 0
+    for b in [x for x in built if x[0] == "payload"][:: (5 if ctx.quick() else 1)]:
+        key, mode, p = b[1], b[2], b[3]
+        try:
+            with impl.quiet():
+                ref = UBXMessage(key[0:1], key[1:2], mode, payload=bytes(p)).serialize()
+        except Exception:  # pylint: disable=broad-except
+            continue
+        buf = bytearray(p)
+        inp = {"op": "payload-bytearray", "args": common.srepr((key, mode, p[:60]), 300)}
+        try:
+            with impl.quiet():
+                m = UBXMessage(key[0:1], key[1:2], mode, payload=buf)
+                outs = [bytes(m.serialize()) for _ in range(3)]
+                repr(m), str(m)
+                outs.append(bytes(m.serialize()))
+        except Exception as e:  # pylint: disable=broad-except
+            ctx.fail("bytearray-payload-raises", inp, "same as bytes payload", type(e).__name__ + ": " + str(e)[:100])
+            continue
+        nbuf += 1
+        if any(o != ref for o in outs):
+            i = next(i for i, o in enumerate(outs) if o != ref)
+            ctx.fail("serialize-not-repeatable", dict(inp, call=i + 1), ref[:60].hex(), outs[i][:60].hex())
+        elif bytes(buf) != bytes(p):
+            ctx.fail("caller-buffer-modified", inp, bytes(p)[:40].hex(), bytes(buf)[:40].hex())
+    ctx.count("bytearray_payload_messages", nbuf)
+    ctx.evaluations += nbuf
     # addressing
     nadd = 0
     for key, name in UBX_MSGIDS.items():
@@ -192,7 +221,7 @@ def cfgval(rng, ty):
     if c == "X":
         return bytes(rng.getrandbits(8) for _ in range(n))
     if c == "R":
-        return rng.choice([0.0, 1.5, -2.25e3, 1e-7])
+        return rng.choice([0.0, -0.0, 1.5, -2.25e3, 1e-7, 0])
     return 0
 
 
